@@ -60,7 +60,7 @@ class Gen:
                     env=[["K", "v"]] if r.random() < 0.2 else [],
                     spell=dict(args="scalar" if r.random() < 0.3 else "list", deps="list" if r.random() < 0.3 else "scalar"),
                     signature="S0" if (f == "C09" and r.random() < 0.3) else "",
-                    extra=["EK", "ev"] if (f == "C09" and r.random() < 0.3) else [])
+                    extra=(["EK", "ev"] if r.random() < 0.5 else ["x y", "z"]) if (f == "C09" and r.random() < 0.45) else [])
             c["_relreads"] = r.random() < 0.4       # the dependency file spells the paths relative to the working directory
             if f == "C11" and reads and r.random() < 0.3:
                 # an explicit working-directory: relative names in the dependency file are relative to it
@@ -152,7 +152,7 @@ class Gen:
     def edit_desc(self, desc):
         r = self.rng; d = copy.deepcopy(desc)
         shells = [n for n, c in d["cmds"].items() if c["tool"] == "shell"]
-        kinds = ["tag", "extra", "env", "rewire", "remove", "flag", "signature", "depstyle", "boundary", "addinput", "restore", "argenv", "dupout"]
+        kinds = ["tag", "extra", "env", "rewire", "remove", "flag", "signature", "depstyle", "boundary", "addinput", "restore", "argenv", "dupout", "argsplit"]
         k = r.choice(kinds)
         if not shells: k = "restore"
         if k == "restore" and getattr(self, "desc0", None) is not None: return copy.deepcopy(self.desc0), "restore"
@@ -180,6 +180,9 @@ class Gen:
         elif k == "dupout":        # a second command claims the same output: the node cannot be built (an error, not a crash)
             c2 = copy.deepcopy(c); c2["tag"] = c["tag"] + "d"; c2["reads"] = []; c2["failif"] = ""
             d["cmds"][n + "d"] = c2; d["order"].append(n + "d")
+        elif k == "argsplit":      # move the boundary between two adjacent arguments across a blank inside one of them
+            if c["_extra"][-2:] == ["x y", "z"]: c["_extra"] = c["_extra"][:-2] + ["x", "y z"]
+            elif c["_extra"][-2:] == ["x", "y z"]: c["_extra"] = c["_extra"][:-2] + ["x y", "z"]
         elif k == "argenv":        # move the two trailing arguments across the args|env boundary
             if len(c["_extra"]) >= 2 and not c["_env"]: c["_env"] = [c["_extra"][-2:]]; c["_extra"] = c["_extra"][:-2]
         elif k == "boundary":
@@ -212,7 +215,12 @@ class Gen:
         if f == "C14": desc = self.add_stale(desc)
         self.desc0 = copy.deepcopy(desc)
         db = r.random() < 0.9; serial = r.random() < 0.5
-        steps = [("frontend", desc, db, serial)]
+        # the client cancels the build at the first failure (what the command line tool does): serial execution, and a new
+        # frontend after every build (the in-memory state of an aborted build is the engine-level subject C05)
+        cof = f in ("C10", "C08") and r.random() < 0.3
+        if cof: serial = True
+        self.cof = cof
+        steps = [("frontend", desc, db, serial, cof)]
         tgts = list(desc["targets"])
         nsteps = r.randint(5, 9)
         steps.append(("build", "t"))
@@ -241,11 +249,11 @@ class Gen:
             elif op == "hdr" and self.headers:
                 h = self.nodes[r.choice(self.headers)]["path"]; steps.append(r.choice([("write", h, r.choice("01")), ("rm", h), ("touch", h)]))
             elif op == "desc":
-                desc, kind = self.edit_desc(desc); steps.append(("frontend", desc, db, serial))
+                desc, kind = self.edit_desc(desc); steps.append(("frontend", desc, db, serial, cof))
             elif op == "restart":
                 if r.random() < 0.25: db = not db
                 if r.random() < 0.3: serial = not serial
-                steps.append(("frontend", copy.deepcopy(desc), db, serial))
+                steps.append(("frontend", copy.deepcopy(desc), db, serial, cof))
             elif op == "tree":
                 root, layout, filt = self.trees[0]
                 live = self.live
@@ -279,6 +287,14 @@ class Gen:
                 steps.append(("build", r.choice(list(desc["targets"]))))
         steps.append(("build", "t"))
         if r.random() < 0.5: steps.append(("build", "t"))
+        if cof:
+            out2 = []
+            for st in steps:
+                out2.append(st)
+                if st[0] in ("build", "buildnode"):
+                    cur = [x for x in out2 if x[0] == "frontend"][-1]
+                    out2.append(("frontend", copy.deepcopy(cur[1]), cur[2], cur[3], True))
+            steps = out2
         # stale-file removal is requested through target s: give it the node of the removal command
         return steps
 
